@@ -3,7 +3,7 @@
 #                                         own scratch git worktree of /repo, so that sensitivity experiments never touch /repo
 # tools/lab.sh run <patch.diff> <ID>... : apply patch in the lab's worktree, run the lab's quick checks, revert
 set -u
-LAB=/root/mutlab
+LAB=${LAB:-/root/mutlab}
 case "${1:-}" in
 sync)
   mkdir -p $LAB
